@@ -44,6 +44,11 @@ impl Vector {
             start = v.len();
         }
 
+        // Nothing to copy from an empty vector or from a start at the end.
+        if start >= v.len() {
+            return vec![];
+        }
+
         let mut end = end.unwrap_or(v.len() - 1);
         if end >= v.len() {
             end = v.len() - 1;
